@@ -57,6 +57,10 @@ type Case struct {
 	// heartbeat messages reach the replica); false: PrimaryConfig nil, what
 	// cmd/kevo passes (10 s / 30 s).
 	FastHeartbeat bool `json:"fast_heartbeat"`
+	// With FastHeartbeat: the heartbeat timeout (0 = 1000 ms) and whether empty
+	// heartbeat messages are switched off (then an idle session simply times out)
+	HBTimeoutMs int  `json:"hb_timeout_ms,omitempty"`
+	HBNoEmpty   bool `json:"hb_no_empty,omitempty"`
 	// Shape "aged_burst": a replica connects before the writes, receives a few
 	// early writes (and with them goes through its receive/reconnect cycles), sits
 	// connected through 16-22 s of silence and then gets a burst of 150-400
@@ -101,6 +105,10 @@ func genCase(t *rapid.T) Case {
 			{Ops: single(rapid.IntRange(150, 400).Draw(t, "ab_burst"))},
 		}
 		c.FastHeartbeat = rapid.Bool().Draw(t, "fast_heartbeat")
+		if c.FastHeartbeat {
+			c.HBTimeoutMs = rapid.SampledFrom([]int{700, 1000, 2000}).Draw(t, "hb_timeout")
+			c.HBNoEmpty = rapid.IntRange(0, 3).Draw(t, "hb_no_empty") == 0
+		}
 		if c.FastHeartbeat && !ev.Flag("idle_heartbeat_backlog") {
 			// open finding: with a heartbeat interval below the replica's receive
 			// period (about one Recv per second while it waits) the empty heartbeat
@@ -218,6 +226,46 @@ func genCase(t *rapid.T) Case {
 		}
 	}
 	c.FastHeartbeat = rapid.Bool().Draw(t, "fast_heartbeat")
+	if c.FastHeartbeat {
+		// timeouts shorter than the idle periods of the trickle / idle_few phases
+		c.HBTimeoutMs = rapid.SampledFrom([]int{700, 1000, 2000}).Draw(t, "hb_timeout")
+		c.HBNoEmpty = rapid.IntRange(0, 3).Draw(t, "hb_no_empty") == 0
+	}
+	// huge single values (a quarter of the cases without a bulk phase): 1-3 puts of
+	// 260 KiB - 1.5 MiB, 3 MiB in total at most so that a 100-entry catch-up message
+	// stays below gRPC's default 4 MiB receive limit; placed as the very first
+	// entry, in the middle of small ones, or last; a replica joins or comes back
+	// afterwards (see the bulk rule below)
+	if bulkAt < 0 && rapid.IntRange(0, 3).Draw(t, "huge") == 0 {
+		budget := 3 << 20
+		nh := rapid.IntRange(1, 3).Draw(t, "nhuge")
+		for i := 0; i < nh; i++ {
+			l := rapid.IntRange(260<<10, 1536<<10).Draw(t, "hugelen")
+			if l > budget {
+				break
+			}
+			budget -= l
+			ph := rapid.IntRange(0, nph-1).Draw(t, "hugephase")
+			if idleFew && ph == nph-1 {
+				ph = nph - 2 // the last few writes after the idle period stay small
+			}
+			ops := c.Phases[ph].Ops
+			pos := 0
+			switch rapid.SampledFrom([]string{"first", "middle", "last"}).Draw(t, "hugepos") {
+			case "middle":
+				pos = len(ops) / 2
+			case "last":
+				pos = len(ops)
+			}
+			op := Op{Op: "put", K: rapid.IntRange(0, nk-1).Draw(t, "k_huge"), V: &drive.Val{Len: l, Tag: tag}}
+			tag++
+			ops = append(ops[:pos:pos], append([]Op{op}, ops[pos:]...)...)
+			c.Phases[ph].Ops = ops
+			if bulkAt < 0 || ph < bulkAt {
+				bulkAt = ph
+			}
+		}
+	}
 	nrep := rapid.SampledFrom([]int{1, 1, 2}).Draw(t, "nrep")
 	for r := 0; r < nrep; r++ {
 		rp := ReplicaPlan{RestartAt: -1, UpAgainAt: -1}
@@ -400,6 +448,38 @@ func classify(c *Case) (bool, []string) {
 	}
 	if joinedFromStart {
 		cl = append(cl, "join_before_writes")
+	}
+	if c.FastHeartbeat {
+		to := c.HBTimeoutMs
+		if to == 0 {
+			to = 1000
+		}
+		for i := 0; i+1 < len(c.Phases); i++ {
+			if c.Phases[i].PauseMs > to+500 {
+				cl = append(cl, "idle_longer_than_heartbeat_timeout_then_writes")
+				break
+			}
+		}
+		if c.HBNoEmpty {
+			cl = append(cl, "heartbeat_without_empty_messages")
+		}
+	}
+	hugeIn := -1
+	for i, ph := range c.Phases {
+		for _, o := range ph.Ops {
+			if o.Op == "put" && o.V.Len >= 260<<10 && hugeIn < 0 {
+				hugeIn = i
+			}
+		}
+	}
+	if hugeIn >= 0 {
+		cl = append(cl, "huge_value(260KiB-1.5MiB)")
+		for _, r := range c.Replicas {
+			if r.JoinAt > hugeIn || r.UpAgainAt > hugeIn {
+				cl = append(cl, "join_or_restart_after_huge_value")
+				break
+			}
+		}
 	}
 	if c.Shape == "aged_burst" {
 		cl = append(cl, "aged_replica_then_burst(150-400)")
